@@ -1657,11 +1657,46 @@ impl<'v> World<'v> {
                 });
                 self.sh.borrow_mut().oracle.op_begin(op.name(), seq);
                 let retained0 = conn.session().verif_runtime().retained;
-                let mut publication = Publication::bytes(topic, &payload).qos(qos).properties(&props);
-                if retain {
-                    publication = publication.retain();
-                }
-                let r = self.drive(conn.publish(publication), Some(id), op != OpK::Pub0);
+                let payload_kind = {
+                    let n = self.cfg.payload_kinds.len();
+                    let i = self.decide_arg(n);
+                    self.cfg.payload_kinds[i]
+                };
+                let r = match payload_kind {
+                    1 => {
+                        // a closure may use all of the buffer it is handed as scratch space
+                        let src = payload.clone();
+                        let f = move |buf: &mut [u8]| -> Result<usize, ()> {
+                            if buf.len() < src.len() {
+                                return Err(());
+                            }
+                            buf.fill(0xDD);
+                            buf[..src.len()].copy_from_slice(&src);
+                            Ok(src.len())
+                        };
+                        let mut publication = Publication::new(topic, f).qos(qos).properties(&props);
+                        if retain {
+                            publication = publication.retain();
+                        }
+                        self.log(|| "  (payload supplied by a closure)".to_string());
+                        self.drive(conn.publish(publication), Some(id), op != OpK::Pub0)
+                    }
+                    2 if std::str::from_utf8(&payload).is_ok() => {
+                        let text = String::from_utf8(payload.clone()).unwrap();
+                        let mut publication = Publication::text(topic, &text).qos(qos).properties(&props);
+                        if retain {
+                            publication = publication.retain();
+                        }
+                        self.drive(conn.publish(publication), Some(id), op != OpK::Pub0)
+                    }
+                    _ => {
+                        let mut publication = Publication::bytes(topic, &payload).qos(qos).properties(&props);
+                        if retain {
+                            publication = publication.retain();
+                        }
+                        self.drive(conn.publish(publication), Some(id), op != OpK::Pub0)
+                    }
+                };
                 let retained1 = conn.session().verif_runtime().retained;
                 let res = match &r {
                     None => Res::Cancelled,
